@@ -53,6 +53,11 @@ def run(ctx):
     for sc, so in zip(spec_cases, spec_out):
         c = sc[5:]
         ctx.evaluations += 1
+        if so.startswith("CRASH"):
+            # the reference driver died (not a statement about /repo): a broken obligation, never a failing input
+            if not any("reference driver crashed" in o for o in ctx.obligation_failures):
+                ctx.obligation_failures.append("reference driver crashed on `%s...` (%s)" % (c[:80], so[:80]))
+            continue
         if impl[c] != so:
             nbad += 1
             ctx.violations.append({"suite": "GEN-VS-REFERENCE", "case": c, "impl": impl[c], "model": so,
